@@ -87,24 +87,28 @@ for F in (1, 2):
         mk()
 
 
-@obligation('C16.chunking', functions=[f'{IMU}:IMUPreintegrator.forward'], timeout=300, max_paths=8)
-def chunk(env):
-    """the same 2-frame stream in one call or in two calls with reset=False gives the same states"""
-    op = env.load(OPS); T = env.T
-    pp, drs, dt, gyro, acc, R0, p0, v0, rots, g, calls = setup(env, 2, False)
-    DT = T.stack([d.reshape(1) for d in dt], 0).reshape(1, 2, 1)
-    G = T.stack(gyro, 0).reshape(1, 2, 3); Ac = T.stack(acc, 0).reshape(1, 2, 3)
-    one = make_integrator(env, pp, R0, p0, v0, g, reset=True)(DT, G, Ac)
-    del calls[:]
-    itg = make_integrator(env, pp, R0, p0, v0, g, reset=False)
-    # reset=False requires prop_cov=True; the covariance propagation is replaced by a recorder (its structure is checked separately)
-    imu = env.load(IMU)
-    env.stub(imu.IMUPreintegrator, 'propagate_cov', lambda self=None, cov_input=None, init_cov=None, gyro_cov=None, acc_cov=None: {'cov': init_cov, 'Rij': cov_input['Rij'][..., -1:, :]})
-    a = itg(DT[:, 0:1], G[:, 0:1], Ac[:, 0:1]); b = itg(DT[:, 1:2], G[:, 1:2], Ac[:, 1:2])
-    for key in ('pos', 'vel'):
-        env.eq(f'{key}: first chunk equals frame 1 of the single call', a[key][0, 0], one[key][0, 0])
-        env.eq(f'{key}: second chunk continues to frame 2 of the single call', b[key][0, 0], one[key][0, 1])
-    env.eq('rot: second chunk continues to frame 2 of the single call', raw(b['rot'])[0, 0], raw(one['rot'])[0, 1])
+for known_ in (False, True):
+    def mk(known=known_):
+        @obligation('C16.chunking' + ('.known_rot' if known else ''), functions=[f'{IMU}:IMUPreintegrator.forward'], timeout=300, max_paths=8)
+        def chunk(env):
+            """the same 2-frame stream in one call or in two calls with reset=False gives the same states (with and without a supplied rotation)"""
+            op = env.load(OPS); T = env.T
+            pp, drs, dt, gyro, acc, R0, p0, v0, rots, g, calls = setup(env, 2, known)
+            DT = T.stack([d.reshape(1) for d in dt], 0).reshape(1, 2, 1)
+            G = T.stack(gyro, 0).reshape(1, 2, 3); Ac = T.stack(acc, 0).reshape(1, 2, 3)
+            Rk = (lambda i, j: lie(pp, 'SO3', T.stack(rots[i:j], 0).reshape(1, j - i, 4))) if known else (lambda i, j: None)
+            one = make_integrator(env, pp, R0, p0, v0, g, reset=True)(DT, G, Ac, rot=Rk(0, 2))
+            del calls[:]
+            itg = make_integrator(env, pp, R0, p0, v0, g, reset=False)
+            # reset=False requires prop_cov=True; the covariance propagation is replaced by a recorder (its structure is checked separately)
+            imu = env.load(IMU)
+            env.stub(imu.IMUPreintegrator, 'propagate_cov', lambda self=None, cov_input=None, init_cov=None, gyro_cov=None, acc_cov=None: {'cov': init_cov, 'Rij': cov_input['Rij'][..., -1:, :]})
+            a = itg(DT[:, 0:1], G[:, 0:1], Ac[:, 0:1], rot=Rk(0, 1)); b = itg(DT[:, 1:2], G[:, 1:2], Ac[:, 1:2], rot=Rk(1, 2))
+            for key in ('pos', 'vel'):
+                env.eq(f'{key}: first chunk equals frame 1 of the single call', a[key][0, 0], one[key][0, 0])
+                env.eq(f'{key}: second chunk continues to frame 2 of the single call', b[key][0, 0], one[key][0, 1])
+            env.eq('rot: second chunk continues to frame 2 of the single call', raw(b['rot'])[0, 0], raw(one['rot'])[0, 1])
+    mk()
 
 
 @obligation('C16.ranks', functions=[f'{IMU}:IMUPreintegrator.forward', f'{IMU}:IMUPreintegrator._check'], timeout=300, max_paths=8)
